@@ -45,7 +45,7 @@ def check(index, ctx):
                         "one call on the united matrix", f"aggregator applied {len(agg)} times on path [{res.describe_path()[-80:]}]",
                         agg[0]["loc"] if agg else "")
             if run.entry == "backward":
-                cotangent_rule(ctx, res, "I", "tensors", index.get_function("torchjd.autojac._transform.init.Init._compute"))
+                cotangent_rule(ctx, res, "I", "tensors", index.get_function("torchjd.autojac._transform.init.Init." + _pipe.compute_method_name(index)))
             else:
                 st = [e for e in _pipe.evs(res, "pack") if e["fn"] == "stack" and not _pipe.in_stage(e)]
                 z = [c for c in _pipe.evs(res, "create") if c["fn"] == "zeros_like" and c["like"] == ["features"]]
